@@ -47,17 +47,18 @@ def show_term(t):
 def show_pat(t):
     from .oracle import SIG
     if isinstance(t, str): return t
+    if t[0] == 'subst': return '(subst %s %s %s)' % (show_pat(t[1]), show_pat(t[2]), show_pat(t[3]))
     return '(' + t[0] + ''.join(' ' + (str(a) if k in 'sb' else show_pat(a)) for k, a in zip(SIG[t[0]], t[1:])) + ')'
 
 def op_line(op):
     if op[0] == 'ematch': return 'ematch ' + show_pat(op[1])
     if op[0] == 'mmatch': return 'mmatch ' + ' ; '.join('%s | %s' % (v, show_pat(p)) for v, p in op[1])
     if op[0] == 'extract': return 'extract %s %s' % (op[2], show_term(op[1]))
-    if op[0] == 'rewrite': return 'rewrite ' + ' ; '.join('%s | %s | %s' % (r[1], show_pat(r[2]), show_pat(r[3])) for r in op[1])
+    if op[0] == 'rewrite': return 'rewrite ' + ' ; '.join(('%s | %s | %s' % (r[1], show_pat(r[2]), show_pat(r[3]))) + (' | %s %d' % (r[4], r[5]) if r[0] == 'rule_if' else '') for r in op[1])
     return op[0] + ' ' + ' '.join(show_term(x) if isinstance(x, (tuple, list)) else str(x) for x in op[1:])
 
 def case_text(cid, tmpl, values, f0, named_max):
-    lines = ['case %s %s %s %d %d%s' % (cid, tmpl.lang, tmpl.analysis, f0, named_max, ' light' if getattr(tmpl, 'light', False) else ''), 'names ' + ' '.join(str(v) for v in values)]
+    lines = ['case %s %s %s %d %d%s' % (cid, tmpl.lang, tmpl.analysis, f0, named_max, (' light' if getattr(tmpl, 'light', False) else '') + (' dump' if getattr(tmpl, 'model', False) else '') + ((' subst=' + tmpl.subst_method) if getattr(tmpl, 'subst_method', None) else '')), 'names ' + ' '.join(str(v) for v in values)]
     if getattr(tmpl, 'late', None): lines.append('late ' + ' '.join('%d:%d' % (i, k) for i, k in sorted(tmpl.late.items())))
     for op in tmpl.ops: lines.append(op_line(op))
     return '\n'.join(lines) + '\n'
